@@ -153,8 +153,10 @@ class FluxBinner(Binner):
                                   axis=-1)
 
             if error is not None:
-                sum_noise = np.sum(weight * weight *
-                                   old_spect_err[..., save_start:save_stop+1]**2,
+                # (the weighted errors are squared, not the errors: an integer
+                # error array would overflow its own type when squared)
+                sum_noise = np.sum((weight *
+                                    old_spect_err[..., save_start:save_stop+1])**2,
                                    axis=-1)
 
                 sum_noise = np.sqrt(sum_noise / sum_weight/sum_weight)
